@@ -15,7 +15,7 @@ CHECKS = {
     ),
     "C05": dict(
         category="proof",
-        text="Lean 4 theorems (C05.*): forward-mode dual numbers over the same polymorphic model; HasDerivAt proofs that the tangents of the focusing functions and of R[1,0] are the true derivatives for k>0, that the guard passes tangents for k1 != 0 and kills them at k1 == 0 (known finding). Tie: torch.autograd gradients of all 49 map entries w.r.t. every quadrupole parameter vs the model's tangents at Dual Float (agree incl. guard points). Falsifier: autograd vs central finite differences for every class/parameter/beam type incl. exact-zero points. Added: soundness of forward-mode differentiation operation by operation (Tracks: + - * / neg sin cos sinh cosh exp atan sqrt log abs preserve (value, derivative) at every point of differentiability) and an end-to-end instance through a guarded model function (gradient of the drift R56 w.r.t. the beam energy). Added: PyTorch`s reverse-mode engine modelled over expression programs (Reverse.lean: backward pass with the local partial derivatives of derivatives.yaml, both arms of torch.where receive a cotangent); theorems reverse_eq_forward (every program, no side condition), forward_is_derivative and reverse_is_gradient (HasDerivAt for every program that is smooth at the point, where nodes included), reverse_gradient_at_guard; tied to torch.autograd.grad by correspondence op rev on random programs and on the tracking code`s guard idioms evaluated at the guard (the NaN from 0*inf in an unselected where arm is reproduced by the model at Float).",
+        text="Lean 4 theorems (C05.*): forward-mode dual numbers over the same polymorphic model; HasDerivAt proofs that the tangents of the focusing functions and of R[1,0] are the true derivatives for k>0, that the guard passes tangents for k1 != 0 and kills them at k1 == 0 (known finding). Tie: torch.autograd gradients of all 49 map entries w.r.t. every quadrupole parameter vs the model's tangents at Dual Float (agree incl. guard points). Falsifier: autograd vs central finite differences for every class/parameter/beam type incl. exact-zero points. Added: soundness of forward-mode differentiation operation by operation (Tracks: + - * / neg sin cos sinh cosh exp atan sqrt log abs preserve (value, derivative) at every point of differentiability) and an end-to-end instance through a guarded model function (gradient of the drift R56 w.r.t. the beam energy). Added: PyTorch`s reverse-mode engine modelled over expression programs (Reverse.lean: backward pass with the local partial derivatives of derivatives.yaml, both arms of torch.where receive a cotangent); theorems reverse_eq_forward (every program, no side condition), forward_is_derivative and reverse_is_gradient (HasDerivAt for every program that is smooth at the point, where nodes included), reverse_gradient_at_guard, focusing_reverse_gradient (the focusing functions of base_rmatrix are proved to be the forward pass of two such programs: reverse-mode gradient = partial derivative of the model function, either sign of the strength); tied to torch.autograd.grad by correspondence op rev on random programs and on the tracking code`s guard idioms evaluated at the guard (the NaN from 0*inf in an unselected where arm is reproduced by the model at Float).",
         design="§5 C05",
         note='Trusted: Lean 4.33 kernel, Mathlib; axioms propext/Classical.choice/Quot.sound only (audited each run); instance Scalar ℝ; real-number semantics (round-off outside the theorems, covered by double-vs-double correspondence); harness generators; partial: reverse-mode engine (NaN from unselected branches) not modelled; derivative proofs cover the focusing functions only.',
         technique='Lean 4 proof (HasDerivAt of dual-number tangents) + autograd correspondence + finite-difference falsifier + reverse-mode model over expression programs tied to torch.autograd (op rev)',
@@ -64,7 +64,7 @@ CHECKS = {
     ),
     "C13": dict(
         category="proof",
-        text="Lean 4 theorems (C13.*). By decide over tables regenerated from source: the Elegant/Bmad element-type dispatch tables (type -> class, keyword -> expression, understood properties) equal the reviewed tables (incl. the Elegant phase - 90 convention); both converters run exactly the modelled continuation passes. By induction over all line lists (model CheetahModel/Text.lean of fortran_namelist.py / rpn.py): continuation merging glues consecutive blocks in file order, only where the text ends with the mark, resolves every continuation, keeps the character stream (kept mark) or removes exactly one mark per absorbed line (removed mark), never grows; cleaned lines carry no comment, blank line, surrounding blank or upper case; RPN 'a b op' is evaluated as 'a op b'; NX tables (model CheetahModel/Nx.lean of the drift filling): every accepted table puts each element's centre at its tabulated position and the importer accepts exactly the tables without overlap. Tie: imported NX layouts vs the model item by item (driver op nxfill); the real read_clean_lines / merge_delimiter_continued_lines / rpn functions vs the model on cleaned and raw random lines (driver op txt). Falsifier: random abstract lattices (variables, expressions, inheritance, later assignments, nested lines) rendered in many spellings, imported and compared with an independent reference denotation; NX-table layouts vs tabulated positions. Added: statement level of the parsers (Namelist.lean: context semantics of parse_lines` handlers — variable / element definition with inheritance by deep copy / property assignment with wild cards / line definition / use — and the expansion of lines by convert_element); theorems statement_assign_property_once, statement_last_use_wins, line_expansion, wildcard_semantics; tied to the real parse_lines + bmad.convert_element by correspondence op nml (random statement sequences rendered as lattice text: final dictionary entry by entry in insertion order, raised exceptions, the nested lattice built from the last use) and to resolve_object_name_wildcard.",
+        text="Lean 4 theorems (C13.*). By decide over tables regenerated from source: the Elegant/Bmad element-type dispatch tables (type -> class, keyword -> expression, understood properties) equal the reviewed tables (incl. the Elegant phase - 90 convention); both converters run exactly the modelled continuation passes. By induction over all line lists (model CheetahModel/Text.lean of fortran_namelist.py / rpn.py): continuation merging glues consecutive blocks in file order, only where the text ends with the mark, resolves every continuation, keeps the character stream (kept mark) or removes exactly one mark per absorbed line (removed mark), never grows; cleaned lines carry no comment, blank line, surrounding blank or upper case; RPN 'a b op' is evaluated as 'a op b'; NX tables (model CheetahModel/Nx.lean of the drift filling): every accepted table puts each element's centre at its tabulated position and the importer accepts exactly the tables without overlap. Tie: imported NX layouts vs the model item by item (driver op nxfill); the real read_clean_lines / merge_delimiter_continued_lines / rpn functions vs the model on cleaned and raw random lines (driver op txt). Falsifier: random abstract lattices (variables, expressions, inheritance, later assignments, nested lines) rendered in many spellings, imported and compared with an independent reference denotation; NX-table layouts vs tabulated positions. Added: statement level of the parsers (Namelist.lean: context semantics of parse_lines` handlers — variable / element definition with inheritance by deep copy / property assignment with wild cards / line definition / use — and the expansion of lines by convert_element); theorems statement_assign_property_once, statement_define_element (inheritance copies, last assignment per key wins, right-hand sides evaluated in the pre-statement context), statement_last_use_wins, line_expansion, wildcard_semantics; tied to the real parse_lines + bmad.convert_element by correspondence op nml (random statement sequences rendered as lattice text: final dictionary entry by entry in insertion order, raised exceptions, the nested lattice built from the last use) and to resolve_object_name_wildcard.",
         design="§5 C13",
         note='Trusted: Lean 4.33 kernel, Mathlib; axioms propext/Classical.choice/Quot.sound only (audited each run); instance Scalar ℝ; real-number semantics (round-off outside the theorems, covered by double-vs-double correspondence); harness generators; partial: the statement-level regex chain, eval, inheritance and line expansion are covered differentially only.',
         technique='Lean 4 induction over a line-level model of the import front end (tied by correspondence) + decide over translator-regenerated tables + differential import falsifier + statement-level model tied to parse_lines/convert_element (op nml)',
